@@ -899,17 +899,18 @@ fn child_mpsc(args: &[String]) -> ! {
     std::process::exit(0)
 }
 
-fn run_child_mpsc(cap: usize, producers: usize, per: u32, mode: Mode, shared: bool, seed: u64) -> (Vec<String>, serde_json::Value) {
+fn run_child_mpsc(cap: usize, producers: usize, per: u32, mode: Mode, shared: bool, seed: u64, pipe: bool) -> (Vec<String>, serde_json::Value) {
     let exe = std::env::current_exe().unwrap();
     let mut child = std::process::Command::new(exe)
         .args(["--child-mpsc", &cap.to_string(), &producers.to_string(), &per.to_string(),
-               if mode == Mode::Lossless { "lossless" } else { "lossy" }, if shared { "shared" } else { "cloned" }, &seed.to_string()])
+               if mode == Mode::Lossless { "lossless" } else { "lossy" }, if shared { "shared" } else { "cloned" }, &seed.to_string(),
+               if pipe { "pipe" } else { "track" }])
         .stdout(std::process::Stdio::piped())
         .stderr(std::process::Stdio::null())
         .spawn()
         .expect("spawn child");
     let t0 = Instant::now();
-    let info = json!({"capacity": cap, "producers": producers, "per_producer": per, "mode": format!("{:?}", mode), "shared_handle": shared, "seed": seed});
+    let info = json!({"queue": if pipe { "pipeline" } else { "track" }, "capacity": cap, "producers": producers, "per_producer": per, "mode": format!("{:?}", mode), "shared_handle": shared, "seed": seed});
     loop {
         match child.try_wait() {
             Ok(Some(status)) => {
@@ -1772,8 +1773,10 @@ fn main() {
         let cap = [1usize, 2, 4, 8, 64][(k % 5) as usize];
         let mode = if k % 2 == 0 { Mode::Lossless } else { Mode::Lossy };
         let shared = k % 4 >= 2;
-        let (v, info) = run_child_mpsc(cap, producers, 20_000, mode, shared, args.seed + k);
-        conc_case(&mut out, v, info, "stress-track-mpsc", None);
+        // every third run: the pipeline queue with one &SampleQueueSender shared by the producer threads
+        let pipe = k % 3 == 2;
+        let (v, info) = run_child_mpsc(cap, producers, 20_000, mode, shared, args.seed + k, pipe);
+        conc_case(&mut out, v, info, if pipe { "stress-pipe-mpsc" } else { "stress-track-mpsc" }, None);
         nmpsc += 1;
         k += 1;
     }
